@@ -21,6 +21,7 @@ var (
 	pos    int
 	ids    = map[int64]int{}
 	active bool
+	kinds  = map[int]bool{1: true, 2: true, 3: true}
 	file   string
 )
 
@@ -60,13 +61,39 @@ func load() {
 	if json.Unmarshal(b, &r) != nil {
 		return
 	}
+	// controlled operation kinds: 1 atomic operation, 2 Gosched, 3 mutex operation (default), 4 WaitGroup
+	// operation, 6 harness gate (only where the property's shim gates them: VERIF_SHIM_KINDS)
+	kinds = map[int]bool{}
+	ks := os.Getenv("VERIF_SHIM_KINDS")
+	if ks == "" {
+		ks = "1,2,3"
+	}
+	for _, f := range strings.Split(ks, ",") {
+		if k, err := strconv.Atoi(strings.TrimSpace(f)); err == nil {
+			kinds[k] = true
+		}
+	}
 	for _, e := range r.Schedule {
-		if k := e & 7; k == 1 || k == 2 || k == 3 { // atomic operation, Gosched, mutex operation
+		if kinds[e&7] {
 			sched = append(sched, e>>3)
 		}
 	}
 	active = len(sched) > 0
 }
+
+// TurnK is Turn for an operation of the given kind; kinds that are not controlled pass at once.
+func TurnK(kind int) func() {
+	mu.Lock()
+	ok := kinds[kind]
+	mu.Unlock()
+	if !ok {
+		return func() {}
+	}
+	return Turn()
+}
+
+// Gate is a harness-level scheduling point (kind 6).
+func Gate() { TurnK(6)() }
 
 // Turn blocks until the calling goroutine is the next one in the recorded schedule and returns the function
 // that passes the turn on (to be called right after the operation).
